@@ -173,13 +173,44 @@ def block_container_case(draw, mode):
     return {'defs': G.defs, 'expr': expr, 'probe': draw(st.lists(st.integers(0, 1000), min_size=8, max_size=8))}
 
 
+@st.composite
+def index_values_case(draw, mode):
+    """Selections whose index VALUES have a shape a value-dependent shortcut could look for (contiguous ranges, almost
+    ranges, sorted, constant, reversed): values are concrete in eager mode and under a closure, traced when the operator is
+    an argument of a filtering jit."""
+    n = draw(st.integers(3, 7))
+    shape = [n] if draw(st.booleans()) else ([n, draw(st.integers(1, 2))] if draw(st.booleans()) else [draw(st.integers(1, 2)), n])
+    last = shape[-1] == n and len(shape) == 2 and shape[0] != n
+    S = St.leaf(shape, draw(st.sampled_from(gen.dtypes(mode))))
+    if draw(st.integers(0, 3)) == 0:
+        S = St.stokes(draw(st.sampled_from(['QU', 'IQU'])), shape, S['dtype'])
+    cnt = draw(st.integers(1, n))
+    a0 = draw(st.integers(0, n - cnt))
+    vals = list(range(a0, a0 + cnt))
+    pat = draw(st.sampled_from(['range', 'near_range', 'near_range', 'sorted', 'constant', 'reversed', 'negative_range']))
+    if pat == 'near_range' and cnt >= 3:
+        j0 = draw(st.integers(1, cnt - 2))
+        vals[j0] = vals[j0 + draw(st.sampled_from([-1, 1]))]
+    elif pat == 'sorted':
+        vals = sorted(draw(st.lists(st.integers(0, n - 1), min_size=cnt, max_size=cnt)))
+    elif pat == 'constant':
+        vals = [a0] * cnt
+    elif pat == 'reversed':
+        vals = vals[::-1]
+    elif pat == 'negative_range':
+        vals = [v - n for v in vals]
+    idx = [{'e': 1}, {'a': vals}] if last else [{'a': vals}]
+    r = {'k': 'index', 'in': S, 'idx': idx, 'explicit_out': draw(st.booleans()), 'unique': None, 'bare': draw(st.booleans())}
+    return {'defs': [], 'expr': r, 'probe': draw(st.lists(st.integers(0, 1000), min_size=8, max_size=8))}
+
+
 def strategy(tier, mode):
     from .c08 import single_case
 
     return st.one_of(single_case(mode), single_case(mode), single_case(mode),
                      gen.expression_case(mode, cap=16, max_len=4, depth=2),
                      gen.expression_case(mode, cap=16, max_len=4, depth=2),
-                     landscape_case(mode), inverse_pair_case(mode), toeplitz_case(mode), block_container_case(mode))
+                     landscape_case(mode), inverse_pair_case(mode), toeplitz_case(mode), block_container_case(mode), index_values_case(mode))
 
 
 def _has_mask(r, defs):
